@@ -94,26 +94,57 @@ impl EventSender {
     }
 }
 
-// TODO: Support reading messages that are larger than `buf`.
+/// The second field holds the rest of an event that was larger than the reader's `buf`.
+/// The following reads deliver it before the next event.
 #[allow(clippy::module_name_repetitions)]
-pub struct EventReceiver(pub safina::sync::Receiver<Event>);
+pub struct EventReceiver(pub safina::sync::Receiver<Event>, pub Vec<u8>);
+impl EventReceiver {
+    #[must_use]
+    pub fn new(receiver: safina::sync::Receiver<Event>) -> Self {
+        Self(receiver, Vec::new())
+    }
+
+    /// Moves as many of the waiting bytes as fit into `buf`.
+    fn read_waiting(&mut self, buf: &mut [u8]) -> usize {
+        let n = buf.len().min(self.1.len());
+        buf[..n].copy_from_slice(&self.1[..n]);
+        self.1.drain(..n);
+        n
+    }
+
+    /// Writes `event` to `buf`.  When `buf` is too small, keeps the rest for the following reads.
+    fn read_event(&mut self, event: &Event, buf: &mut [u8]) -> usize {
+        if let Ok(n) = event.write_to(buf) {
+            n
+        } else {
+            event.push_to(&mut self.1);
+            self.read_waiting(buf)
+        }
+    }
+}
 impl futures_io::AsyncRead for EventReceiver {
     fn poll_read(
         mut self: Pin<&mut Self>,
         cx: &mut Context<'_>,
         buf: &mut [u8],
     ) -> Poll<Result<usize, std::io::Error>> {
+        if !self.1.is_empty() {
+            return Poll::Ready(Ok(self.read_waiting(buf)));
+        }
         match Pin::new(&mut self.0).poll(cx) {
             Poll::Pending => Poll::Pending,
-            Poll::Ready(Ok(event)) => Poll::Ready(event.write_to(buf)),
+            Poll::Ready(Ok(event)) => Poll::Ready(Ok(self.read_event(&event, buf))),
             Poll::Ready(Err(_recv_error)) => Poll::Ready(Ok(0)),
         }
     }
 }
 impl Read for EventReceiver {
     fn read(&mut self, buf: &mut [u8]) -> Result<usize, std::io::Error> {
+        if !self.1.is_empty() {
+            return Ok(self.read_waiting(buf));
+        }
         match self.0.recv() {
-            Ok(event) => event.write_to(buf),
+            Ok(event) => Ok(self.read_event(&event, buf)),
             Err(_) => Ok(0),
         }
     }
